@@ -190,6 +190,9 @@ func checkC12(c *vkit.Ctx) {
 	}
 	total := len(sets) * len(seqs)
 	for i := 0; i < total; i++ {
+		if os.Getenv("VERIF_RACE_BUILD") == "1" {
+			break // the -race workers only run the concurrent mixes below
+		}
 		if !c.Mine(i) {
 			continue
 		}
@@ -222,9 +225,13 @@ func checkC12(c *vkit.Ctx) {
 	if c.P.Exhaustive == nil {
 		c.P.Exhaustive = map[string]bool{}
 	}
-	c.P.Exhaustive["sequences<=4_x_48_option_sets"] = c.OnlyCase < 0
-	c.Count("option_sets", len(sets))
-	c.Count("sequences", len(seqs))
+	if os.Getenv("VERIF_RACE_BUILD") != "1" {
+		c.P.Exhaustive["sequences<=4_x_48_option_sets"] = c.OnlyCase < 0
+	}
+	if c.P.Shard == 0 {
+		c.Count("option_sets", len(sets))
+		c.Count("sequences", len(seqs))
+	}
 
 	// concurrent mixes through one Config (meaningful under -race: thorough tier / C06)
 	if os.Getenv("VERIF_RACE_BUILD") == "1" {
